@@ -81,8 +81,20 @@ def mvn_logpdf(Z, C):
 def bvn_cdf(h, k, rho):
     """P(X<=h, Y<=k) for a standard bivariate normal, by 1-d quadrature (own reference)."""
     s = np.sqrt(1 - rho * rho)
-    val, _ = integrate.quad(lambda x: stats.norm.pdf(x) * stats.norm.cdf((k - rho * x) / s), -np.inf, h,
-                            epsabs=1e-12, epsrel=1e-12, limit=400)
+    # finite range with break points where the integrand changes: around x = k / rho the factor Phi((k - rho x) / s)
+    # switches between 0 and 1 (for |rho| near 1 within a width s / |rho|); an adaptive rule on (-inf, h] can step over
+    # that narrow bump when it lies at |x| > 5 (it returned 3e-13 instead of 1.19e-7 for h = 5.17, k = -5.17, rho = 0.96)
+    lo = -40.0
+    if h <= lo:
+        return 0.0
+    pts = {0.0, float(np.clip(k, lo, h))}
+    if abs(rho) > 1e-12:
+        c = k / rho
+        w = 8.0 * s / abs(rho)
+        pts |= {float(np.clip(c, lo, h)), float(np.clip(c - w, lo, h)), float(np.clip(c + w, lo, h))}
+    pts = sorted(p for p in pts if lo < p < h)
+    val, _ = integrate.quad(lambda x: stats.norm.pdf(x) * stats.norm.cdf((k - rho * x) / s), lo, h,
+                            epsabs=1e-14, epsrel=1e-12, limit=800, points=pts or None)
     return val
 
 
